@@ -38,6 +38,9 @@ def canon(x, _path=None):
                 type(x).__name__,
                 tuple(canon(a, _path) for a in x.args),
                 tuple((k, canon(d[k], _path)) for k in sorted(d)),
+                # (error objects are shared between copies: what a copy does to one - clearing its traceback, say - it does
+                #  to the input's; whether a traceback is attached is part of the state)
+                ("has_traceback", x.__traceback__ is not None),
             )
         if isinstance(x, Library):
             blocks = x.blocks
